@@ -905,4 +905,44 @@ def path_steps(fi, max_paths=64):
             elif node.kind == "return" and st is not None:
                 ret = st
         out.append({"steps": steps, "ret": ret})
-    return out
+    # conditional expressions inside bindings / the return value are split into their alternatives (a condition step
+    # before the binding), like `returned_exprs` does
+    final = []
+    work = list(out)
+    while work:
+        pth = work.pop()
+        hit = None
+        for i, st in enumerate(pth["steps"]):
+            if st[0] == "bind":
+                ife = next((n for n in ast.walk(st[2]) if isinstance(n, ast.IfExp)), None)
+                if ife is not None:
+                    hit = (i, ife)
+                    break
+        if hit is None and pth["ret"] is not None and pth["ret"].value is not None:
+            ife = next((n for n in ast.walk(pth["ret"].value) if isinstance(n, ast.IfExp)), None)
+            if ife is not None:
+                hit = (len(pth["steps"]), ife)
+        if hit is None or len(final) + len(work) > 4 * max_paths:
+            final.append(pth)
+            continue
+        i, ife = hit
+        ttxt = ast.unparse(ife.test)
+        for pol in (True, False):
+
+            class R2(ast.NodeTransformer):
+                def visit_IfExp(self, n):
+                    n = self.generic_visit(n)
+                    if isinstance(n, ast.IfExp) and ast.unparse(n.test) == ttxt:
+                        return n.body if pol else n.orelse
+                    return n
+
+            steps = list(pth["steps"])
+            ret = pth["ret"]
+            if i < len(steps):
+                steps[i] = ("bind", steps[i][1], R2().visit(copy.deepcopy(steps[i][2])))
+            else:
+                ret = copy.deepcopy(ret)
+                ret.value = R2().visit(ret.value)
+            steps.insert(i, ("cond", copy.deepcopy(ife.test), pol))
+            work.append({"steps": steps, "ret": ret})
+    return final
